@@ -153,8 +153,11 @@ def _gc(keep):
     base = os.path.join(CACHE, "facts")
     ents = [d for d in os.listdir(base) if os.path.isdir(os.path.join(base, d)) and d != keep]
     ents.sort(key=lambda d: os.path.getmtime(os.path.join(base, d)))
-    for d in ents[:-3]:
-        shutil.rmtree(os.path.join(base, d), ignore_errors=True)
+    now = time.time()
+    for d in ents[:-6]:
+        # never drop a tree another process may still be reading (concurrent checks on scratch copies)
+        if now - os.path.getmtime(os.path.join(base, d)) > 3600:
+            shutil.rmtree(os.path.join(base, d), ignore_errors=True)
 
 
 class Crate:
